@@ -20,6 +20,7 @@ type Listener struct {
 	closed     bool
 	closeCalls int
 	accepted   []*Conn
+	pushed     []*Conn
 	dropped    []*Conn
 	onAccept   func(n int, c *Conn)
 }
@@ -47,6 +48,7 @@ func (l *Listener) Push(c *Conn) bool {
 		return false
 	}
 	l.q = append(l.q, c)
+	l.pushed = append(l.pushed, c)
 	l.cond.Broadcast()
 	l.mu.Unlock()
 	return true
@@ -125,6 +127,18 @@ func (l *Listener) Accepted() []*Conn {
 // WasAccepted reports whether c was handed out by Accept.
 func (l *Listener) WasAccepted(c *Conn) bool {
 	for _, x := range l.Accepted() {
+		if x == c {
+			return true
+		}
+	}
+	return false
+}
+
+// WasPushed reports whether c entered the backlog (false: the listener was already closed, "refused").
+func (l *Listener) WasPushed(c *Conn) bool {
+	l.mu.Lock()
+	defer l.mu.Unlock()
+	for _, x := range l.pushed {
 		if x == c {
 			return true
 		}
